@@ -322,6 +322,106 @@ def h_eq_add(y, m, dd):
     return fn, types
 
 
+# ---------------------------------------------------------------- cell: bool(d) with absolute fields, including zero values
+def h_bool_abs(via):
+    """bool(d) is false exactly when no field is set: absolute fields count when present, whatever their value (hour=0 is
+    a set field); reached directly (via=0), through a combination whose relative parts cancel (1) and through negation (2).
+    Per time field the state absent / zero / non-zero is pinned per path; the date part is present or absent as a whole."""
+    from dateutil.relativedelta import relativedelta
+    TIME = (("hour", 23), ("minute", 59), ("second", 59), ("microsecond", 999999))
+    types = {"s_" + n: int for n, _hi in TIME}
+    types.update({"v_" + n: int for n, _hi in TIME})
+    types.update(k=int, datepart=bool)
+
+    def fn(ctx, **kw):
+        present = {}
+        if ctx.concrete(kw["datepart"]):
+            present.update(year=2003, month=9, day=17)
+        for n, hi in TIME:
+            st = kw["s_" + n]
+            ctx.assume(0 <= st <= 2)
+            st = ctx.concrete(st)
+            v = kw["v_" + n]
+            ctx.assume(1 <= v <= hi)
+            if st == 1:
+                present[n] = 0
+            elif st == 2:
+                present[n] = v          # symbolic non-zero value
+        k = kw["k"]
+        ctx.assume(-5 <= k <= 5)
+        if via == 0:
+            d = relativedelta(**present)
+        elif via == 1:      # relative parts cancel, the absolute ones stay
+            d = relativedelta(days=k) + relativedelta(days=-k, **present)
+        else:
+            d = -relativedelta(**present)
+        for n in present:
+            ctx.check(getattr(d, n) == present[n], "absolute field lost or altered", key="abs-kept")
+        ctx.check(bool(d) == bool(present), "bool(d) must be true exactly when some field is set (absolute fields set to 0 count)", key="bool-abs")
+        ctx.check((d == relativedelta()) == (not present), "a delta with absolute fields set compares equal to the empty delta", key="eq-empty")
+        return bool(d)
+    return fn, types
+
+
+# ---------------------------------------------------------------- cell: equal deltas built in different ways, added to a date
+def h_eq_forms(y, m, dd):
+    """Deltas that normalise to the same fields (whole days given as hours / minutes / seconds / sums / products /
+    negations) are equal, hash equal, and give the same sum - value and type - with a date and with a datetime."""
+    import datetime
+    from dateutil.relativedelta import relativedelta
+    types = dict(k=int, fa=int, fb=int, months=int)
+    d0 = datetime.date(y, m, dd)
+    t0 = datetime.datetime(y, m, dd, 13, 45, 10, 250000)
+    NF = 9
+
+    def mk(form, k, months):
+        if form == 0:
+            return relativedelta(days=k, months=months)
+        if form == 1:
+            return relativedelta(hours=24 * k, months=months)
+        if form == 2:
+            return relativedelta(minutes=1440 * k, months=months)
+        if form == 3:
+            return relativedelta(seconds=86400 * k, months=months)
+        if form == 4:
+            return relativedelta(hours=12 * k, months=months) + relativedelta(hours=12 * k)
+        if form == 5:
+            return relativedelta(hours=8 * k) * 3 + relativedelta(months=months)
+        if form == 6:
+            return -relativedelta(hours=-24 * k, months=-months)
+        if form == 7:
+            return relativedelta(microseconds=86400 * 10 ** 6 * k, months=months)
+        return relativedelta(days=k + 1, hours=-24, months=months)
+
+    def fn(ctx, k, fa, fb, months):
+        ctx.assume(-3 <= k <= 3)
+        ctx.assume(-1 <= months <= 1)
+        ctx.assume(fa == 0)              # every other construction against the plain days=k one
+        ctx.assume(1 <= fb < NF)
+        fa, fb, k, months = ctx.concrete(fa), ctx.concrete(fb), ctx.concrete(k), ctx.concrete(months)
+        if ctx.symbolic:
+            return None                  # all inputs pinned (one form multiplies by a float): checked in the native replay
+        a, b = mk(fa, k, months), mk(fb, k, months)
+        ctx.check(_same_fields(a, b), "the two constructions do not normalise to the same fields", key="forms-fields")
+        ctx.check(a == b, "equal-field deltas are not ==", key="forms-eq")
+        ctx.check(hash(a) == hash(b), "equal deltas hash differently", key="forms-hash")
+        for (op, tag) in ((d0, "date"), (t0, "datetime")):
+            def add(r):
+                try:
+                    return op + r
+                except (ValueError, OverflowError):
+                    return None
+            ra, rb = add(a), add(b)
+            ctx.check((ra is None) == (rb is None), "equal deltas: one sum raises, the other does not", key="forms-raises-" + tag)
+            if ra is None:
+                continue
+            ctx.check(type(ra) is type(rb), "equal deltas give a %s sum of different types (%s / %s)" % (tag, type(ra).__name__, type(rb).__name__),
+                      key="forms-type-" + tag)
+            ctx.check(ra == rb, "equal deltas give different sums with a " + tag, key="forms-sum-" + tag)
+        return None
+    return fn, types
+
+
 # ---------------------------------------------------------------- cell: half-integer day/hour/minute fields (exact in binary floating point)
 def h_float_half(field):
     """A relative field of the form n + 0.5 (exactly representable): carries must preserve the total.  The value is
@@ -403,6 +503,9 @@ def cells(tier):
             cs.append(Cell(M, "h_scalar", dict(k=k, group="time"), budget_s=600, per_path_s=20))
     for (y, m, dd) in ((2024, 2, 29),) if q else ((2024, 2, 29), (1999, 12, 31), (2100, 3, 1), (1, 1, 31), (9999, 11, 30)):
         cs.append(Cell(M, "h_eq_add", dict(y=y, m=m, dd=dd), budget_s=120 * B))
+        cs.append(Cell(M, "h_eq_forms", dict(y=y, m=m, dd=dd), budget_s=150 * B))
+    for via in (0, 1, 2):
+        cs.append(Cell(M, "h_bool_abs", dict(via=via), budget_s=150 * B))
     cs.append(Cell(M, "h_nonint", {}, budget_s=60))
     for f in ("days", "hours", "minutes", "seconds"):
         cs.append(Cell(M, "h_float_half", dict(field=f), budget_s=120))
